@@ -42,6 +42,7 @@ package decoder
 
 import (
 	"github.com/cloudwego/hertz/internal/bytesconv"
+	"github.com/cloudwego/hertz/pkg/common/utils"
 	"github.com/cloudwego/hertz/pkg/protocol"
 	"github.com/cloudwego/hertz/pkg/route/param"
 )
@@ -122,6 +123,11 @@ func cookieSlice(req *protocol.Request, params param.Params, key string, default
 }
 
 func headerSlice(req *protocol.Request, params param.Params, key string, defaultValue ...string) (ret []string) {
+	// header keys are stored normalized; compare against the normalized tag name,
+	// exactly as RequestHeader.Peek does for the non-slice getter
+	k := []byte(key)
+	utils.NormalizeHeaderKey(k, req.Header.IsDisableNormalizing())
+	key = string(k)
 	req.Header.VisitAll(func(headerKey, value []byte) {
 		if bytesconv.B2s(headerKey) == key {
 			ret = append(ret, string(value))
